@@ -62,6 +62,12 @@ def gen(tier, rng):
             if dict(b.defs)[c][3] == "vec" and rng.random() < 0.2:
                 c = b.poison(c)
             roots.append(c)
+        owned_in_1 = [c for c in m1 if dict(b.defs)[c][0] == "owned" and len(b.locks_of[c]) >= 2]
+        if owned_in_1 and rng.random() < 0.5:
+            # the second acquisition takes an owned collection directly that the first reaches through a sorting
+            # collection: "an owned collection is ordered as one indivisible unit"
+            roots[1] = rng.choice(owned_in_1)
+            m2 = [roots[1]]
         modes = []
         for r in roots:
             modes.append("sh" if b.sharable[r] and rng.random() < 0.5 else "ex")
